@@ -362,7 +362,7 @@ impl<'a> Interp<'a> {
         if let Kind::Literal(_) = it.kind {
             return Err(vec![leaf(LeafKind::LiteralItem, Where::Item(it.id), "")]);
         }
-        let name = path_string(&it.name);
+        let name = name_string(&it.name);
         for v in vs.iter().filter(|v| !v.skip) {
             let vn = variant_name(r, v);
             if vn != name {
@@ -415,7 +415,7 @@ impl<'a> Interp<'a> {
                 st.errors.push(leaf(LeafKind::LiteralItem, Where::Item(it.id), ""));
                 continue;
             }
-            let name = path_string(&it.name);
+            let name = name_string(&it.name);
             let idx = fs.iter().position(|f| !f.skip && !f.flatten && field_name(r, f) == name);
             match idx {
                 Some(k) => {
